@@ -262,6 +262,33 @@ def finish_arith(repo, fn, hdr, cls, tag, blockname):
             "End F%s." % tag]
 
 
+def hotp_truncation(repo):
+    """detail::hotp_from_digest (src/hmac_utils.cpp): the whole body must be, in this order: empty check, offset, length check, bin_code, divisor table, return.
+    uint32_t arithmetic (W = 32); `hmac_result.back()` is written `last_byte`."""
+    txt = strip_comments(open(os.path.join(repo, "src", "hmac_utils.cpp"), errors="replace").read())
+    body = func_body(txt, r"int\s+hotp_from_digest\s*\([^)]*\)\s*\{")
+    norm = re.sub(r"\s+", " ", body).strip()
+    pat = (r'^if \(hmac_result\.empty\(\)\) \{ throw std::runtime_error\("[^"]*"\); \} '
+           r'int offset = (?P<off>[^;]+); '
+           r'if \((?P<guard>[^{]+)\) \{ throw std::runtime_error\("[^"]*"\); \} '
+           r'uint32_t bin_code = (?P<bin>[^;]+); '
+           r'static const uint64_t divisor\[\] = \{(?P<tab>[^}]*)\}; '
+           r'return (?P<ret>[^;]+);$')
+    m = re.match(pat, norm)
+    if not m: raise TranslateError("detail::hotp_from_digest no longer has the statement sequence the translator understands: %s" % norm[:300])
+    off = m.group("off").replace("hmac_result.back()", "last_byte")
+    guard = re.sub(r"static_cast\s*<[^>]*>\s*\(", "(", m.group("guard")).replace("hmac_result.size()", "size")
+    env = {"hmac_result": "hmac_result", "offset": "offset", "last_byte": "last_byte", "size": "size", "bin_code": "bin_code", "digits": "digits", "divisor": "src_divisor"}
+    tab = [expr(v, {}) for v in m.group("tab").split(",") if v.strip()]
+    return ["Module OTP.",
+            "Definition src_divisor : list N := [%s]." % "; ".join(tab),
+            "Definition src_offset (W last_byte : N) : N := %s." % expr(off, env),
+            "Definition src_too_short (W size offset : N) : N := %s." % expr(guard, env),
+            "Definition src_bin_code (W : N) (hmac_result : list N) (offset : N) : N := %s." % expr(m.group("bin"), env),
+            "Definition src_return (W bin_code digits : N) : N := %s." % expr(m.group("ret"), env),
+            "End OTP."]
+
+
 def cstring_after(txt, anchor_re, count):
     out = []
     for m in re.finditer(anchor_re, txt):
@@ -273,40 +300,59 @@ def cstring_after(txt, anchor_re, count):
 def coq_bytes(s): return "[" + "; ".join(str(ord(c)) for c in s) + "]"
 
 
-def generate(repo):
-    """Returns the text of Gen_Source.v, or raises TranslateError."""
+def generate(repo, errors=None):
+    """Returns the text of Gen_Source.v. Each source fragment is translated on its own: when one cannot be translated its module is left out (the tie
+    theorems that mention it then fail, and only those) and the reason is stored in `errors` (section -> message); without `errors` it raises."""
     out = ["(* GENERATED by /verif/lib/srcgen.py from %s/src on every run. Do not edit. *)" % repo,
            "From HV Require Import Base_Bytes Spec_SHA.", "From Coq Require Import List NArith.", "Import ListNotations.",
            "Local Open Scope N_scope.",
            "Definition upd (l : list N) (i : nat) (v : N) : list N := firstn i l ++ v :: skipn (S i) l.", ""]
-    for fn, cls, tag, kt, fs in [("sha256.cpp", "SHA256", "256", "sha256_k", ["SHA256_F1", "SHA256_F2", "SHA256_F3", "SHA256_F4"]),
-                                 ("sha512.cpp", "SHA512", "512", "sha512_k", ["SHA512_F1", "SHA512_F2", "SHA512_F3", "SHA512_F4"])]:
-        txt = strip_comments(open(os.path.join(repo, "src", fn), errors="replace").read())
-        out.append("Module S%s." % tag)
-        out.extend(macros(txt, ["SHA2_SHFR", "SHA2_ROTR", "SHA2_CH", "SHA2_MAJ"] + fs))
-        out.append("Definition src_%s : list N := [%s]." % (kt, "; ".join(table(txt, kt))))
-        out.append("Definition src_iv : list N := [%s]." % "; ".join(init_values(txt, cls, 8)))
-        out.extend(transform(txt, cls, "", kt))
-        out.append("End S%s.\n" % tag)
-    out.extend(finish_arith(repo, "sha256.cpp", "sha256.hpp", "SHA256", "256", "SHA224_256_BLOCK_SIZE"))
-    out.extend(finish_arith(repo, "sha512.cpp", "sha512.hpp", "SHA512", "512", "SHA384_512_BLOCK_SIZE"))
-    txt = strip_comments(open(os.path.join(repo, "src", "sha1.cpp"), errors="replace").read())
-    out.append("Definition src_sha1_iv : list N := [%s]." % "; ".join(init_values(txt, "SHA1", 5)))
-    ks = []
-    for r in range(5):
-        m = re.search(r"^[ \t]*#define[ \t]+SHA1_R%d\([^)]*\)[^\n]*?\+\s*(0[xX][0-9a-fA-F]+)\s*\+" % r, txt, flags=re.M)
-        if not m: raise TranslateError("SHA1_R%d constant not found" % r)
-        ks.append("0x" + m.group(1)[2:].lower())
-    out.append("Definition src_sha1_k : list N := [%s]." % "; ".join(ks))
-    out.extend(sha1_macros(txt))
-    enc = open(os.path.join(repo, "src", "encoding.cpp"), errors="replace").read()
-    b64 = cstring_after(enc, r'"(ABCDEFGHIJKLMNOPQRSTUVWXYZabcdefghijklmnopqrstuvwxyz[^"]*)"', 2)
-    out.append("Definition src_b64_std : list N := %s." % coq_bytes(b64[0]))
-    out.append("Definition src_b64_url : list N := %s." % coq_bytes(b64[1]))
-    b32 = cstring_after(enc, r'return\s+"(ABCDEFGHIJKLMNOPQRSTUVWXYZ[^"]*)"\s*;', 1)
-    out.append("Definition src_b32 : list N := %s." % coq_bytes(b32[0]))
-    b36 = cstring_after(enc, r'return\s+"(0123456789[^"]*)"\s*;', 1)
-    out.append("Definition src_b36 : list N := %s." % coq_bytes(b36[0]))
+
+    def section(name, f):
+        try:
+            out.extend(f())
+        except Exception as e:          # TranslateError, a missing file, a regular expression that no longer matches
+            if errors is None: raise
+            errors[name] = "%s: %s" % (type(e).__name__, e)
+
+    def sha2(fn, cls, tag, kt, fs):
+        def f():
+            txt = strip_comments(open(os.path.join(repo, "src", fn), errors="replace").read())
+            o = ["Module S%s." % tag]
+            o.extend(macros(txt, ["SHA2_SHFR", "SHA2_ROTR", "SHA2_CH", "SHA2_MAJ"] + fs))
+            o.append("Definition src_%s : list N := [%s]." % (kt, "; ".join(table(txt, kt))))
+            o.append("Definition src_iv : list N := [%s]." % "; ".join(init_values(txt, cls, 8)))
+            o.extend(transform(txt, cls, "", kt))
+            o.append("End S%s.\n" % tag)
+            return o
+        return f
+    section("sha256 transform", sha2("sha256.cpp", "SHA256", "256", "sha256_k", ["SHA256_F1", "SHA256_F2", "SHA256_F3", "SHA256_F4"]))
+    section("sha512 transform", sha2("sha512.cpp", "SHA512", "512", "sha512_k", ["SHA512_F1", "SHA512_F2", "SHA512_F3", "SHA512_F4"]))
+    section("sha256 finish", lambda: finish_arith(repo, "sha256.cpp", "sha256.hpp", "SHA256", "256", "SHA224_256_BLOCK_SIZE"))
+    section("sha512 finish", lambda: finish_arith(repo, "sha512.cpp", "sha512.hpp", "SHA512", "512", "SHA384_512_BLOCK_SIZE"))
+
+    def sha1():
+        txt = strip_comments(open(os.path.join(repo, "src", "sha1.cpp"), errors="replace").read())
+        o = ["Definition src_sha1_iv : list N := [%s]." % "; ".join(init_values(txt, "SHA1", 5))]
+        ks = []
+        for r in range(5):
+            m = re.search(r"^[ \t]*#define[ \t]+SHA1_R%d\([^)]*\)[^\n]*?\+\s*(0[xX][0-9a-fA-F]+)\s*\+" % r, txt, flags=re.M)
+            if not m: raise TranslateError("SHA1_R%d constant not found" % r)
+            ks.append("0x" + m.group(1)[2:].lower())
+        o.append("Definition src_sha1_k : list N := [%s]." % "; ".join(ks))
+        o.extend(sha1_macros(txt))
+        return o
+    section("sha1", sha1)
+    section("hotp truncation", lambda: hotp_truncation(repo))
+
+    def codecs():
+        enc = open(os.path.join(repo, "src", "encoding.cpp"), errors="replace").read()
+        b64 = cstring_after(enc, r'"(ABCDEFGHIJKLMNOPQRSTUVWXYZabcdefghijklmnopqrstuvwxyz[^"]*)"', 2)
+        b32 = cstring_after(enc, r'return\s+"(ABCDEFGHIJKLMNOPQRSTUVWXYZ[^"]*)"\s*;', 1)
+        b36 = cstring_after(enc, r'return\s+"(0123456789[^"]*)"\s*;', 1)
+        return ["Definition src_b64_std : list N := %s." % coq_bytes(b64[0]), "Definition src_b64_url : list N := %s." % coq_bytes(b64[1]),
+                "Definition src_b32 : list N := %s." % coq_bytes(b32[0]), "Definition src_b36 : list N := %s." % coq_bytes(b36[0])]
+    section("codec alphabets", codecs)
     return "\n".join(out) + "\n"
 
 
